@@ -1,5 +1,6 @@
 import TypifyModel.Model.StrConv
 import TypifyModel.Model.Render
+import TypifyModel.Model.Builder
 import TypifyModel.Generated.Derives
 import TypifyModel.Driver.IrJson
 import TypifyModel.Driver.Regex
@@ -73,7 +74,7 @@ def evalOp (c : Case) (op tyName payload : String) : String :=
              | .error e => "de2-" ++ showE e
              | .ok v2 => match se σ fuel t v2 with
                | .error e => "se2-" ++ showE e
-               | .ok w2 => "ok " ++ renderJson w ++ " " ++ renderJson w2)
+               | .ok w2 => "ok " ++ renderJson w ++ "\t" ++ renderJson w2)
     | "fromstr" | "tryfrom_str" | "tryfrom_string" | "tryfrom_refstring" =>
       (match parseJson payload with
        | some (.str s) =>
@@ -93,6 +94,41 @@ def evalOp (c : Case) (op tyName payload : String) : String :=
          | .ok v => match display σ fuel t v with
            | .error e => showE e
            | .ok s => "ok " ++ renderJson (.str s))
+    | "build" =>
+      (match parseJson payload, σ.get t with
+       | some top, some ⟨.struct _ props _ _, _, _⟩ =>
+         let set := (jget top "set").getD (.obj [])
+         -- a value that does not deserialize into the property type cannot be handed to the setter
+         let bad := props.find? (fun p => match jget set p.name with
+           | some j => (match de ext σ fuel p.ty j with | .ok _ => false | _ => true)
+           | none => false)
+         (match bad with
+          | some p => "badvalue " ++ p.name
+          | none =>
+            let choice : Field → Option Builder.Arg := fun p =>
+              match jget set p.name with
+              | some j => (match de ext σ fuel p.ty j with | .ok v => some (.value v) | _ => none)
+              | none => none
+            match Builder.slots ext σ fuel choice props with
+            | .error e => showE e
+            | .ok sl =>
+              match Builder.build sl with
+              | .error m => "err " ++ m
+              | .ok fs => match se σ fuel t (.struct fs) with
+                | .ok w => "ok " ++ renderJson w
+                | .error e => "se-" ++ showE e)
+       | _, _ => "unsupported")
+    | "unbuild" =>
+      (match parseJson payload with
+       | none => "badjson"
+       | some j =>
+         match de ext σ fuel t j with
+         | .error e => showE e
+         | .ok (.struct fs) =>
+           (match Builder.build (Builder.unbuild fs) with
+            | .ok fs' => (match se σ fuel t (.struct fs') with | .ok w => "ok " ++ renderJson w | .error e => "se-" ++ showE e)
+            | .error m => "err " ++ m)
+         | .ok _ => "unsupported")
     | "default" =>
       (match dflt ext σ fuel t with
        | .error e => showE e
